@@ -26,6 +26,15 @@ TEMPLATES = [
     ('operator-table',
      '@Rule@ = /\\d/ between {\n prefix: "-"\n left: "+"\n}\nstart = let @v1@ = @Rule@ in [";", @Rule@, `@v1@`]\n',
      ['1+2;3', '-1;2+', '1', '', '1;-2+3']),
+    # an operator table next to user-chosen locals (the table's loop calls builtins)
+    ('operator-table-with-locals',
+     'class @Cls@ { @f1@: "x"; @f2@: /\\d/ between {\n left: "+"\n}; let @f3@: "!"?; @f4@: `@f1@` }\n'
+     'start = let @v1@ = "<" in let @v2@ = @Cls@ in [`@v1@`, `@v2@`, /\\d/ between {\n prefix: "-"\n left: "*"\n}]\n',
+     ['<x1+2!3*4', '<x1-2', '<x1', '', '<x1+2+3!-1*-2', 'x1']),
+    # a parameter that stands for a template and is CALLED with arguments
+    ('callable-parameter',
+     '@Tpl@(@p1@, @p2@) = [@p1@("a"), "-", @p2@(x="b"), @p1@(@p2@("c"))]\n@Rule@(x) = [x, x]\n@Num@(x) = x*\nstart = @Tpl@(@Rule@, @Num@) | @Tpl@(@Num@, @Rule@)\n',
+     ['aa-bbbcc', 'aaa-bbccc', 'aa-cc', '', 'a-bbcccc', '-bb']),
 ]
 PLAIN = {'v1': 'alpha', 'v2': 'beta', 'f1': 'first', 'f2': 'second', 'f3': 'third', 'f4': 'fourth', 'p1': 'px', 'p2': 'py',
          'Rule': 'Item', 'Cls': 'Node', 'Tpl': 'Tmpl', 'Num': 'Numb'}
@@ -40,7 +49,8 @@ CONSTRUCTORS = ['Seq', 'List', 'Left', 'Right', 'Opt', 'Choice', 'Sep', 'Some', 
 # identifiers that BEGIN with a word of the grammar language
 KEYWORDISH = ['letter', 'let_it', 'Nonempty', 'Truest', 'Falsehood', 'whereabouts', 'classy', 'ignored_x', 'passing', 'requirement', 'inside',
               'between2', 'leftmost', 'rightmost', 'infixed', 'prefixes', 'grammarian', 'extendsx', 'overrides1', 'startle', 'Startup']
-SCRATCH = ['title', 'line', 'col', 'excerpt', 'details', 'text', 'pos', 'fullparse', 'memo', 'stack', 'key', 'gtor', 'result', 'node', 'visited']
+SCRATCH = ['title', 'line', 'col', 'excerpt', 'details', 'text', 'pos', 'fullparse', 'memo', 'stack', 'key', 'gtor', 'result', 'node', 'visited',
+           'self', 'cls', 'args', 'kw', 'other', 'name', 'fields', 'start', 'callback', 'origin']
 
 
 def instantiate(tpl, names):
@@ -64,6 +74,8 @@ def renamings(rnd, keys_used, tier):
             out.append((f'runtime-scratch:{b}', {**PLAIN, k: b}))
         for b in BUILTINS:
             out.append((f'builtin-as-local:{b}', {**PLAIN, k: b}))
+        for b in CONSTRUCTORS:
+            out.append((f'constructor-as-local:{b}', {**PLAIN, k: b}))
     for k in locs + globs:
         for b in KEYWORDISH:
             out.append((f'keyword-prefixed:{b}', {**PLAIN, k: b}))
@@ -133,7 +145,8 @@ def run(R):
             fresh = [r for r in rens if r[0] == 'fresh']
             rest = [r for r in rens if r[0] != 'fresh']
             rnd.shuffle(rest)
-            keep = [r for r in rest if r[0].split(':')[0] in ('builtin-as-local', 'builtin-as-rule', 'constructor-name', 'keyword-prefixed')]
+            keep = [r for r in rest if r[0].split(':')[0] in ('builtin-as-local', 'builtin-as-rule', 'constructor-name', 'constructor-as-local', 'keyword-prefixed')]
+            keep += [r for r in rest if r not in keep and r[0] in ('runtime-scratch:self', 'runtime-scratch:cls', 'runtime-scratch:args', 'runtime-scratch:start')]
             other = [r for r in rest if r not in keep]
             rens = fresh + keep + other[:100]
         for label, names in rens:
